@@ -103,6 +103,8 @@ def decoder():
       $foo-bar#00
     or
       +
+    or
+      -
 
     This function is a generator object which can be paused in the middle.
     """
@@ -122,7 +124,7 @@ def decoder():
                     res.extend(byte)
                     byte = yield res.decode("ascii")
                     break
-        elif byte == b"+":
+        elif byte == b"+" or byte == b"-":
             byte = yield byte.decode("ascii")
         else:
             if not isinstance(byte, bytes):
